@@ -72,6 +72,7 @@ type liqWorld struct {
 	panics     []string
 	lastBatch  map[[2]uint64]uint64
 	panicNotes int
+	feeGov     bool // governance changes swap-fee rates during the run (C07)
 }
 
 var liqDenoms = []string{"ucmdx", "uatom", "uosmo", "ucmst"}
@@ -1020,8 +1021,37 @@ func (w *liqWorld) opDrain() {
 	}
 }
 
+// opGovFee: governance changes an app's swap-fee rate (the liquidity generic-params update) while orders are live.
+// Recorded as an environment action when a tape is attached.
+func (w *liqWorld) opGovFee() {
+	app := w.apps[w.rnd.Intn(len(w.apps))]
+	rates := []string{"0", "0.003", "0.05", "0.01", "0.1", "0.0005"}
+	nr := rates[w.rnd.Intn(len(rates))]
+	old := w.cfg.Fee[app-1]
+	if nr == old {
+		return
+	}
+	err := c16Env(w.c, "liq-generic-params", fmt.Sprint(app), "SwapFeeRate", nr)
+	outcome := "ok"
+	if err != nil {
+		outcome = "refused: " + err.Error()
+	} else {
+		w.cfg.Fee[app-1] = nr
+		w.rateNum[app] = sdk.MustNewDecFromStr(nr).BigInt()
+		w.rec.Count("gov_swap_fee_rate_changes", 1)
+	}
+	st := &liqStep{Kind: "gov", Op: "gov-swap-fee-rate"}
+	st.Desc = fmt.Sprintf("h=%d governance: app %d SwapFeeRate %s -> %s: %s", w.c.Header.Height, app, old, nr, outcome)
+	w.pushTrace(st.Desc)
+	w.observe(st)
+}
+
 func (w *liqWorld) randomOp() {
 	r := w.rnd
+	if w.feeGov && r.Intn(100) < 3 {
+		w.opGovFee()
+		return
+	}
 	if r.Intn(100) < 30 { // liquidity provider action
 		a := w.lps[r.Intn(len(w.lps))]
 		switch x := r.Intn(100); {
@@ -1091,7 +1121,12 @@ func (w *liqWorld) blockGap() time.Duration {
 // liqRun drives one chain instance: nBlocks blocks with random transactions,
 // then a wind-down in which every order is cancelled or left to expire.
 func liqRun(t *testing.T, rec *ev.Rec, rnd *rand.Rand, run, nBlocks int, mon liqMonitor) {
+	liqRunOpts(t, rec, rnd, run, nBlocks, mon, false)
+}
+
+func liqRunOpts(t *testing.T, rec *ev.Rec, rnd *rand.Rand, run, nBlocks int, mon liqMonitor, feeGov bool) {
 	w := liqNewWorld(t, rec, rnd, run, mon)
+	w.feeGov = feeGov
 	defer w.c.Close()
 	for b := 0; b < nBlocks; b++ {
 		ntx := []int{0, 1, 2, 3, 3, 4, 5, 6}[rnd.Intn(8)]
